@@ -205,28 +205,21 @@ func c12Body(nw, per int, closer string, stall bool) func() {
 
 func c12Scenarios(r *hx.Run) []hx.Scenario {
 	var out []hx.Scenario
-	pb := 2
-	maxW := 2
+	type wp struct{ nw, per, bound int }
+	// quick: up to two writers, bound 1 everywhere and bound 2 for the smallest harness;
+	// thorough: up to three writers / two writes each, bound 2 (3 for the smallest)
+	shapes := []wp{{1, 1, 2}, {1, 2, 1}, {2, 1, 1}}
 	if r.Thorough() {
-		pb, maxW = 3, 3
+		shapes = []wp{{1, 1, 3}, {1, 2, 3}, {2, 1, 2}, {2, 2, 2}, {3, 1, 2}}
 	}
-	for nw := 1; nw <= maxW; nw++ {
-		for per := 1; per <= 2; per++ {
-			if nw == 3 && per == 2 {
-				continue
-			}
-			for _, cl := range closers {
-				for _, stall := range []bool{false, true} {
-					if stall && (nw*per < 2) {
-						continue
-					}
-					b := pb
-					if nw == 3 {
-						b = 2
-					}
-					out = append(out, hx.Scenario{Name: fmt.Sprintf("c12:w=%d,per=%d,close=%s,stall=%v", nw, per, cl, stall),
-						Body: c12Body(nw, per, cl, stall), Bounds: simrt.B(b, 0, 0)})
+	for _, sh := range shapes {
+		for _, cl := range closers {
+			for _, stall := range []bool{false, true} {
+				if stall && sh.nw*sh.per < 2 {
+					continue
 				}
+				out = append(out, hx.Scenario{Name: fmt.Sprintf("c12:w=%d,per=%d,close=%s,stall=%v", sh.nw, sh.per, cl, stall),
+					Body: c12Body(sh.nw, sh.per, cl, stall), Bounds: simrt.B(sh.bound, 0, 0)})
 			}
 		}
 	}
